@@ -30,4 +30,14 @@ impl<T: Eq + Hash + Debug> ReferenceCounter<T> {
             Entry::Vacant(_) => false,
         }
     }
+
+    /// Verification hook: a copy of the counts (compiled only with `--cfg blue_verif`).
+    #[cfg(blue_verif)]
+    pub fn verif_counts(&self) -> Vec<(T, u64)>
+    where
+        T: Clone,
+    {
+        let counts = self.counts.lock().unwrap();
+        counts.iter().map(|(k, v)| (k.clone(), *v)).collect()
+    }
 }
